@@ -127,6 +127,9 @@ def make_scenario(rng, sub=None, input_kind=None, force=None):
     sc["silent"], sc["verbose"] = silent, verbose
     if silent:
         sc["opts"].append("--silent")
+        if force.get("silent_and_verbose", rng.random() < 0.25):
+            # both flags: --silent wins ("show no output")
+            sc["opts"].insert(rng.randrange(len(sc["opts"]) + 1), "--verbose")
     if verbose:
         sc["opts"].append("--verbose")
     color = force.get("color", rng.choice(["never", "never", "never", "always", "auto"]))
@@ -211,6 +214,12 @@ def make_scenario(rng, sub=None, input_kind=None, force=None):
                     if not sc["wasm"] and rng.random() < 0.15:
                         sc["wasm"] = True
                         cfg_lines.append("wasm = true")
+                    if force.get("cfg_stdout", rng.random() < 0.4):
+                        # output options in the config file that contradict the flags: the flags win
+                        cfg_lines.append("[stdout_options]")
+                        cfg_lines.append('color = "%s"' % ("Always" if color != "always" else "Never"))
+                        cfg_lines.append('arrows = "%s"' % ("Unicode" if arrows == "ascii" else "Ascii"))
+                        sc["cfg_stdout"] = True
                     sc["files"]["penne.toml"] = ("\n".join(cfg_lines) + "\n").encode()
                 elif cfg_variant == "malformed":
                     sc["files"]["penne.toml"] = b"backend = [unterminated\n"
@@ -498,7 +507,11 @@ def judge(sc, obs, census, plan_kind, benign, self_census=False):
     for c in calls:
         if c["cls"] == "mkdir":
             c["creating"] = True
-    stdio_failed = any(c["failed"] and c["cls"] in ("out", "err") for c in calls) or sc.get("stdout_kind", "pipe") in ("devfull", "closed")
+    # (a tool told to be --silent has nothing to write to stdout: an unwritable stdout is then no excuse)
+    natural_out = sc.get("stdout_kind", "pipe") in ("devfull", "closed")
+    stdio_failed = any(c["failed"] and c["cls"] == "err" for c in calls) or \
+        (any(c["failed"] and c["cls"] == "out" for c in calls) and not (natural_out and sc["silent"])) or \
+        (natural_out and not sc["silent"])
     expect_zero, why = model_expect_zero(sc, calls)
     rc = obs["rc"]
     ok_exit = rc == 0 and not obs["sig"]
@@ -743,7 +756,8 @@ def script_grid():
 
 
 FS_VARIANTS = ["artefact_is_directory", "artefact_symlink_to_devfull", "out_dir_through_regular_file", "source_is_directory",
-               "source_symlink_loop", "stdout_devfull", "stdout_closed", "config_is_directory"]
+               "source_symlink_loop", "stdout_devfull", "stdout_closed", "config_is_directory",
+               "silent_stdout_devfull", "silent_verbose_stdout_devfull", "silent_stdout_closed"]
 
 
 def _fs_variant_job(args):
@@ -757,6 +771,9 @@ def _fs_variant_job(args):
              "config": "none", "out_dir": "fresh", "wasm": False}
     if variant == "config_is_directory":
         sub = "build"
+    if variant.startswith("silent_"):
+        force["silent"] = True
+        force["silent_and_verbose"] = "verbose" in variant
     sc = make_scenario(rng, sub, "valid_multi", force)
     sc["name"] = "fs:%s:%s" % (variant, sub)
     first = artefact_rel(sc["modules"][0])
@@ -789,10 +806,19 @@ def _fs_variant_job(args):
         sc["pre_dirs"].append("penne.toml")
         sc["opts"] += ["--config", "penne.toml"]
         sc["config_ok"] = False
+    elif variant.startswith("silent_"):
+        # nothing is written to stdout under --silent, so an unwritable stdout
+        # changes nothing: success, complete artefacts, the backend ran
+        sc["stdout_kind"] = "closed" if variant.endswith("closed") else "devfull"
+        expect_fail = False
     wd = os.path.join(work_root(), "C18", "v%d" % idx)
     obs = exec_scenario(sc, wd)
     obs["artefacts_ref"] = obs["artefacts"]
-    v, calls, _ = judge(sc, obs, None, "fs_variant", None)
+    if variant.startswith("silent_"):
+        twin = dict(sc)
+        twin["stdout_kind"] = "pipe"
+        obs["artefacts_ref"] = exec_scenario(twin, wd + "-twin")["artefacts"]
+    v, calls, _ = judge(sc, obs, obs if variant.startswith("silent_") else None, "fs_variant", None)
     viol = [{"class": c, "detail": d, "scenario": sc_json(sc), "plan": [], "fault": variant} for c, d in v]
     ok_exit = obs["rc"] == 0 and not obs["sig"]
     if expect_fail and ok_exit:
@@ -862,7 +888,8 @@ def _render_grid_job(args):
     rng = rng_for(seed, "C18/render", idx)
     sub = ["emit", "run", "build"][idx % 3]
     sc = make_scenario(rng, sub, "zoo_invalid", {"color": "never", "arrows": "ascii", "silent": False, "verbose": False, "cell": (0, 0, 0),
-                                                 "config": "none", "out_dir": "absent", "script": {"read": "all", "exit": 0}, "order": "parent_first"})
+                                                 "config": "valid" if sub == "build" and idx % 2 else "none", "cfg_stdout": True,
+                                                 "out_dir": "absent", "script": {"read": "all", "exit": 0}, "order": "parent_first"})
     sc["name"] = "render%d:%s" % (idx, sub)
     if idx % 4 == 3:
         # stdout is a terminal with a capable TERM: --color=never must still mean no escape sequence
